@@ -107,6 +107,9 @@ pub const CUBE_PATTERNS: &[&str] = &[
     "/a0123456789b0123456789c0123456789d0123456789e0123456789f0123456789g012345/ads",
     // hostname anchor with an empty host text (the parser keeps an empty hostname)
     "||*/foo/", "||/foo/bar", "||^foo^",
+    // a wildcard directly behind a host prefix (the prefix is no whole token of a matching host),
+    // with a remainder that has tokens of its own and with one that has none
+    "||ad*.net/foo/bar", "||ad*/a",
     // full regex and empty
     "/ads[a-z]*\\/bar/", "/^https?:\\/\\/ads\\./", "/\\/ADS/", "/ads[0-/", "/ads\\Dfoo/", "/\\Wads\\W/", "*", "",
 ];
